@@ -18,6 +18,7 @@ from qce_circuit.structure.intrf_circuit_operation import (
     MultiRelationType,
     ChannelIdentifier,
     ICircuitOperation,
+    clear_start_time_cache,
 )
 from qce_circuit.structure.graph_traversal.intrf_graph_structure import (
     IEndpoint,
@@ -254,6 +255,7 @@ class CircuitCompositeOperation(ICircuitCompositeOperation):
             graph=self._circuit_graph,
             operation=operation,
         )
+        clear_start_time_cache()  # Structure (and relations) changed
         return self
 
     def copy(self, relation_transfer_lookup: Optional[Dict[ICircuitOperation, ICircuitOperation]] = None) -> 'CircuitCompositeOperation':
@@ -304,6 +306,7 @@ class CircuitCompositeOperation(ICircuitCompositeOperation):
             # Apply relation-link head (Important for nested composite-operations)
             if not node.operation.has_relation:
                 node.operation.relation_link = self.relation_link
+                clear_start_time_cache()  # Relation changed
             # Extend decomposed operation list
             result.extend(node.operation.decomposed_operations())
         return result
@@ -320,6 +323,7 @@ class CircuitCompositeOperation(ICircuitCompositeOperation):
                 operation=operation,
             )
         self._circuit_graph = flatten_circuit_graph
+        clear_start_time_cache()  # Structure (and relations) changed
         return self
     # endregion
 
